@@ -59,8 +59,8 @@ func (nopStore) GetHighestInstance([]byte) (*qbftstorage.StoredInstance, error) 
 func (nopStore) GetInstancesInRange([]byte, specqbft.Height, specqbft.Height) ([]*qbftstorage.StoredInstance, error) {
 	return nil, nil
 }
-func (nopStore) SaveInstance(*qbftstorage.StoredInstance) error                    { return nil }
-func (nopStore) SaveHighestInstance(*qbftstorage.StoredInstance) error             { return nil }
+func (nopStore) SaveInstance(*qbftstorage.StoredInstance) error                     { return nil }
+func (nopStore) SaveHighestInstance(*qbftstorage.StoredInstance) error              { return nil }
 func (nopStore) SaveHighestAndHistoricalInstance(*qbftstorage.StoredInstance) error { return nil }
 func (nopStore) GetInstance([]byte, specqbft.Height) (*qbftstorage.StoredInstance, error) {
 	return nil, nil
@@ -70,7 +70,7 @@ func (nopStore) CleanAllInstances(*zap.Logger, []byte) error { return nil }
 type recNet struct{ msgs []*spectypes.SSVMessage }
 
 func (r *recNet) Broadcast(m *spectypes.SSVMessage) error { r.msgs = append(r.msgs, m); return nil }
-func (r *recNet) take() []*spectypes.SSVMessage            { x := r.msgs; r.msgs = nil; return x }
+func (r *recNet) take() []*spectypes.SSVMessage           { x := r.msgs; r.msgs = nil; return x }
 
 type nopTimer struct{}
 
